@@ -5,7 +5,7 @@
    P' = whatever the caller's array holds when the query runs (`self_points P P'` = self.points: P iff the constructor copied).
    Non-vacuity examples (concrete inputs meeting the hypotheses, incl. the two repaired witnesses) are in Proofs.v. *)
 From Coq Require Import ZArith List Bool Permutation Sorting.Sorted.
-Require Import MV.C11.Ext MV.C11.Gen MV.C11.Model MV.C11.ProofsGen MV.C11.ProofsBuild MV.C11.Proofs.
+Require Import MV.C11.Ext MV.C11.Gen MV.C11.Model MV.C11.ProofsGen MV.C11.ProofsBuild MV.C11.Proofs MV.C11.ProofsMore.
 Close Scope Z_scope.
 Open Scope nat_scope.
 
@@ -56,3 +56,62 @@ Theorem C11_radius_exact :
         (forall j, In j res <-> (j < length P /\ (sqdist P q j <= r2)%Z)).
 Proof. exact radius_exact_alias. Qed.
 Print Assumptions C11_radius_exact.
+
+(* the generated split (_split_points with its rank fallback) makes progress whatever the pivot - median, median of a random
+   sample, random element, or anything else: both sides are non-empty, together they are the leaf's points, and the split
+   value separates them.  This is what makes `fast` and `random` terminate as well as `balanced`. *)
+Theorem C11_split_progress :
+  forall (P : list (list Z)) (pts : list nat) (ax : nat) (pivot sv : Z) (less more : list nat),
+    2 <= length pts -> split P pts ax pivot = (sv, less, more) ->
+    Permutation (less ++ more) pts /\ less <> nil /\ more <> nil /\
+    (forall i, In i less -> (coord P i ax <= sv)%Z) /\ (forall i, In i more -> (sv <= coord P i ax)%Z).
+Proof. exact split_spec. Qed.
+Print Assumptions C11_split_progress.
+
+(* max_leaf_size is respected: no leaf of the finished tree holds more points *)
+Theorem C11_leaf_size_bound :
+  forall (P : list (list Z)) (dim mls : nat) (oracle : nat -> Z) nodes,
+    build P dim mls oracle = Ok nodes ->
+    forall i ax lp bb, nth_error nodes i = Some (Leaf ax lp bb) -> length lp <= mls.
+Proof. exact leaf_size_bound. Qed.
+Print Assumptions C11_leaf_size_bound.
+
+(* the node array is laid out parents first: both children of node i exist and come after i (no cycle, no dangling id) *)
+Theorem C11_children_after_parent :
+  forall (P : list (list Z)) (dim mls : nat) (oracle : nat -> Z),
+    1 <= dim -> 1 <= mls -> points_wf dim P ->
+    forall nodes, build P dim mls oracle = Ok nodes ->
+    forall i ax sv l r bb, nth_error nodes i = Some (Node ax sv l r bb) ->
+      i < l /\ l < length nodes /\ i < r /\ r < length nodes.
+Proof. exact children_after_parent. Qed.
+Print Assumptions C11_children_after_parent.
+
+(* the radius answer, as a multiset of indices, is the index range filtered by the distance test (duplicated points included) *)
+Theorem C11_radius_permutation :
+  forall (P : list (list Z)) (dim mls : nat) (oracle : nat -> Z),
+    1 <= dim -> 1 <= mls -> points_wf dim P ->
+    forall nodes (P' : list (list Z)) (q : list Z) (r2 : Z), build P dim mls oracle = Ok nodes ->
+      exists res, query_radius (self_points P P') nodes q r2 = Ok res /\
+        Permutation res (filter (fun j => Z.leb (sqdist P q j) r2) (seq 0 (length P))).
+Proof. exact radius_permutation. Qed.
+Print Assumptions C11_radius_permutation.
+
+(* k >= n: every point is returned exactly once, nearest first *)
+Theorem C11_knn_all_points_when_k_ge_n :
+  forall (P : list (list Z)) (dim mls : nat) (oracle : nat -> Z),
+    1 <= dim -> 1 <= mls -> points_wf dim P ->
+    forall nodes (P' : list (list Z)) (q : list Z) (k : nat), build P dim mls oracle = Ok nodes -> length P <= k ->
+      exists res, query (self_points P P') nodes q k = Ok res /\
+        Permutation res (seq 0 (length P)) /\
+        StronglySorted (fun a b => (sqdist P q a <= sqdist P q b)%Z) res.
+Proof. exact knn_all. Qed.
+Print Assumptions C11_knn_all_points_when_k_ge_n.
+
+(* _find_pivot: whichever strategy is used, the pivot it can return (the median, the median of a random sample, a random
+   element - the rule per strategy is generated from the source) lies within every interval containing the coordinates
+   of the leaf being split *)
+Theorem C11_pivot_within_bounds :
+  forall (lo hi : Z) (s : strategy) (coords : list Z) (pivot : Z),
+    coords <> nil -> Forall (inb lo hi) coords -> pivot_ok (pivot_rule s) coords pivot = true -> inb lo hi pivot.
+Proof. exact pivot_within_bounds. Qed.
+Print Assumptions C11_pivot_within_bounds.
